@@ -146,7 +146,7 @@ def state_hash(canon):
 
 def replay(driver, history, upto=None):
     """Re-execute a history from scratch.  Returns (world, last_pre_snapshot, last_outcome)."""
-    core.reset_globals()
+    core.reset_globals(getattr(driver, "alloc_policy", "fresh"))
     world = driver.new_world()
     pre = out = None
     n = len(history) if upto is None else upto
